@@ -713,6 +713,21 @@ fn judge_log(st: &mut Stats, acc: &mut Acc, z: &Cmplx, zc: CDD, b: &Cmplx) {
         upd(&mut acc.misc[13], d / tol);
         if !(d <= tol) { st.violation("C14:log:Cmplx:axis-reduction", format!("{} = {} but real ln x/ln b = {:e}; |diff| {:e} > {:e}", desc(), showz(&v), p, d, tol)); }
     }
+    // log_b z = ln z / ln b between LIBRARY values, for the base itself and - straight afterwards, on the same thread - for
+    // its twin that differs only in the sign of a zero part (equal under ==, on the other side of the cut of ln): whatever the
+    // library remembers of the previous base must not leak into the next call
+    let zz = *z;
+    let mut bases = vec![*b];
+    if b.imag == 0.0 { bases.push(Cmplx::new(b.real, -b.imag)); bases.push(*b); }
+    if b.real == 0.0 { bases.push(Cmplx::new(-b.real, b.imag)); }
+    for bq in bases {
+        let lq = match call2(st, "log", desc, move || (zz.log(bq), zz.ln() / bq.ln())) { Some(t) => t, None => return };
+        let (lv, qv) = lq;
+        if !fin(&qv) { continue; }
+        let d = cdiff2(&lv, qv.real, qv.imag);
+        let tol = 4.0 * env + K_FWD * U * mr;
+        if !(d <= tol) { st.violation("C14:log:Cmplx:vs-ln-quotient", format!("log(z={}, base={}) = {} but ln(z)/ln(base) = {} (library values, base used right after base={}); |diff| {:e} > {:e}", showz(z), showz(&bq), showz(&lv), showz(&qv), showz(b), d, tol)); return; }
+    }
 }
 
 /// abs, arg, abs_sqr, conj, Signed::abs, polar and the polar round trip
@@ -839,7 +854,7 @@ fn judge_point(st: &mut Stats, acc: &mut Acc, class: &str, z: Cmplx, aux: &Aux) 
 const W_LIST: [(f64, f64); 20] = [(2.0 + 7e-11, 0.0), (1e-11, 0.0), (-3.0 + 2e-11, 0.0), (1.0 - 1e-12, 1e-11), (2.0, 0.0), (-1.0, 0.0), (0.5, 0.0), (3.0, 0.0), (0.0, 1.0), (0.0, -2.0), (1.0, 1.0), (-1.5, 2.0),
     (2.0, -2.0), (0.0, 3.0), (0.25, -0.75), (-3.0, 0.0), (0.0, 0.0), (-0.5, 0.0), (1.0 / 3.0, 0.0), (-2.0, -2.0)];
 const X_LIST: [f64; 17] = [2.0 + 7e-11, -1.0 - 1e-11, 3e-11, 1.0 - 1e-12, 3.0 + 5e-11, 2.0, 3.0, -1.0, 0.5, -0.5, 1.0 / 3.0, -2.0, 2.5, -3.0, 0.0, 1.0, 1.5];
-const B_LIST: [(f64, f64); 10] = [(2.0, 0.0), (10.0, 0.0), (0.5, 0.0), (std::f64::consts::E, 0.0), (0.0, 1.0), (-2.0, 0.0), (1.0, 1.0), (-1.0, -1.0), (0.1, -3.0), (3.0, 4.0)];
+const B_LIST: [(f64, f64); 12] = [(-2.0, -0.0), (-0.5, 0.0), (2.0, 0.0), (10.0, 0.0), (0.5, 0.0), (std::f64::consts::E, 0.0), (0.0, 1.0), (-2.0, 0.0), (1.0, 1.0), (-1.0, -1.0), (0.1, -3.0), (3.0, 4.0)];
 
 fn enum_aux(i: usize) -> Aux {
     let w = |k: usize| { let (a, b) = W_LIST[k % W_LIST.len()]; Cmplx::new(a, b) };
